@@ -55,7 +55,7 @@ class Viol:
         self.count = {}
         self.known = excluded_classes(prop)
 
-    def add(self, tag, case, expected=None, actual=None, detail=None):
+    def add(self, tag, case, expected=None, actual=None, detail=None, weight=None):
         if tag in self.known:
             self.sub.excluded += 1
             self.sub.cls("KNOWN " + tag)
@@ -63,9 +63,16 @@ class Viol:
         c = self.count.get(tag, 0) + 1
         self.count[tag] = c
         self.sub.cls("FAIL " + tag)
-        if c <= self.keep:
-            case = dict(case)
-            case.setdefault("cls", [tag])
-            self.sub.violations.append({"sub": self.sub.name, "case": case,
-                                        "expected": expected, "actual": actual,
-                                        "detail": detail})
+        if weight is None:
+            weight = case.get("n", 0) if isinstance(case, dict) else 0
+        mine = [v for v in self.sub.violations if v["case"]["cls"][0] == tag]
+        if len(mine) >= self.keep:
+            worst = max(mine, key=lambda v: v["w"])
+            if worst["w"] <= weight:
+                return
+            self.sub.violations.remove(worst)
+        case = dict(case)
+        case.setdefault("cls", [tag])
+        self.sub.violations.append({"sub": self.sub.name, "case": case, "w": weight,
+                                    "expected": expected, "actual": actual,
+                                    "detail": detail})
